@@ -190,9 +190,12 @@ func Attestation(quote []byte) (*tpmpb.Attestation, error) {
 		return nil, ErrQuoteNil
 	}
 	tpmat := &tpmpb.Attestation{}
-	if err := proto.Unmarshal(quote, tpmat); err == nil {
+	// Other supported messages (e.g. the go-sev-guest Attestation) also deserialize as a go-tpm-tools
+	// Attestation, only without a TEE attestation: that is not the format the bytes are in.
+	if err := proto.Unmarshal(quote, tpmat); err == nil && tpmat.GetTeeAttestation() != nil {
 		return tpmat, nil
 	}
+	tpmat = &tpmpb.Attestation{}
 
 	// The Report Proto can be deserialized as an Attestation proto with adverse effect, so disallow
 	// a bad measurement deserialization.
